@@ -3,6 +3,7 @@ package main
 import (
 	"fmt"
 	"go/types"
+	"os"
 	"strings"
 
 	"golang.org/x/tools/go/ssa"
@@ -121,6 +122,7 @@ func (t *FnTrans) intrinsic(key string, c *ssa.CallCommon, args []Val, res ssa.V
 	mon := t.monitorOfComp("H" + comp[1:])
 	switch kind {
 	case "lock", "rlock":
+		t.tpEvent(comp, true, false)
 		t.oblige("lock.reentrant", eq(cur, "0"), "lock acquired while already held by this goroutine (self-deadlock)")
 		t.lockOrder(comp, mon)
 		mode := "2"
@@ -152,12 +154,14 @@ func (t *FnTrans) intrinsic(key string, c *ssa.CallCommon, args []Val, res ssa.V
 			t.vals[res] = Val{S: okn}
 		}
 	case "unlock":
+		t.tpEvent(comp, false, true)
 		t.oblige("unlock.held", eq(cur, "2"), "Unlock of a mutex that is not write-held")
 		t.ghostAt("before unlock")
 		t.release(mon, ref)
 		t.set(comp, app("store", t.get(comp), ref, "0"))
 		t.cur.Held[comp+"|"+ref] = 0
 	case "runlock":
+		t.tpEvent(comp, false, true)
 		t.oblige("unlock.held", eq(cur, "1"), "RUnlock of a mutex that is not read-held")
 		t.set(comp, app("store", t.get(comp), ref, "0"))
 		t.cur.Held[comp+"|"+ref] = 0
@@ -997,4 +1001,84 @@ func (t *FnTrans) debtsExit() {
 		}
 		t.oblige("owed.exit", "(forall ((d$r Int)) (=> (< d$r "+q("$alloc@0")+") (= (select "+now+" d$r) (select "+was+" d$r))))", "every promised notification was delivered before returning, for every object that existed at entry ("+c+")")
 	}
+}
+
+// tpEvent records an acquire / release of a lock component at the current instruction (deferred calls
+// count at the point where the defers run).
+func (t *FnTrans) tpEvent(comp string, acq, rel bool) {
+	at := t.curInstr
+	if t.deferSite != nil {
+		at = t.deferSite
+	}
+	if at == nil {
+		return
+	}
+	if os.Getenv("GOVC_DEBUG_TP") != "" {
+		fmt.Fprintf(os.Stderr, "tp %s %s acq=%v rel=%v at %s\n", t.key, comp, acq, rel, t.eng.prog.Fset.Position(at.Pos()))
+	}
+	t.tpEvents = append(t.tpEvents, tpEvent{at: at, comp: comp, acq: acq, rel: rel})
+}
+
+// twoPhaseCheck (opt twophase): an operation that is claimed to be atomic takes each lock at most in one
+// phase - on no control-flow path is a lock component acquired (directly or by a callee that needs it
+// free) after it was released earlier in the same call. The check is over the control-flow graph (all
+// syntactic paths, lock identity by component), i.e. conservative.
+func (t *FnTrans) twoPhaseCheck() {
+	if t.ct == nil || t.ct.Opts["twophase"] == "" {
+		return
+	}
+	reach := func(a, b ssa.Instruction) bool { // can b execute after a?
+		ba, bb := a.Block(), b.Block()
+		idx := func(in ssa.Instruction) int {
+			for i, x := range in.Block().Instrs {
+				if x == in {
+					return i
+				}
+			}
+			return -1
+		}
+		if ba == bb && idx(a) < idx(b) {
+			return true
+		}
+		// block reachability through successors (covers loops: ba may reach itself)
+		seen := map[*ssa.BasicBlock]bool{}
+		var work []*ssa.BasicBlock
+		work = append(work, ba.Succs...)
+		for len(work) > 0 {
+			x := work[len(work)-1]
+			work = work[:len(work)-1]
+			if seen[x] {
+				continue
+			}
+			seen[x] = true
+			if x == bb {
+				return true
+			}
+			work = append(work, x.Succs...)
+		}
+		return false
+	}
+	bad := ""
+	for _, r := range t.tpEvents {
+		if !r.rel {
+			continue
+		}
+		for _, a := range t.tpEvents {
+			if !a.acq || a.comp != r.comp {
+				continue
+			}
+			if (a.at != r.at && reach(r.at, a.at)) || (a.at == r.at && reach(r.at, a.at)) {
+				bad = fmt.Sprintf("lock %s is acquired at %s after it was released at %s", r.comp, t.eng.prog.Fset.Position(a.at.Pos()), t.eng.prog.Fset.Position(r.at.Pos()))
+			}
+		}
+	}
+	goal := "true"
+	note := "two-phase locking: no lock is taken again after it was released within one call"
+	if bad != "" {
+		goal = "false"
+		note += " (" + bad + ")"
+	}
+	// a property of the control-flow graph: no path condition, no hypotheses
+	o := &Obligation{Name: t.oblPrefix() + "::lock.twophase", Kind: "lock.twophase", NLines: 0, Guard: "true", Goal: goal, Expect: "unsat", Fn: t.oblPrefix(), Note: note, Pos: t.eng.prog.Fset.Position(t.fn.Pos())}
+	t.obls = append(t.obls, o)
 }
